@@ -73,6 +73,25 @@ def close(a, b, rel=1e-9, scale=1.0):
     return abs(a - b) <= rel * max(1.0, abs(a), abs(b), scale)
 
 
+def approx_same(x, y, rel=1e-9):
+    """Structural equality of two observations with floats compared by `close` (for twins whose inputs differ in layout /
+    container only: pandas and numpy may sum in another order, so the last digits of a float are not an observation)."""
+    import numpy as np
+
+    if isinstance(x, (np.generic, np.ndarray)):
+        x = x.tolist()
+    if isinstance(y, (np.generic, np.ndarray)):
+        y = y.tolist()
+    if isinstance(x, dict) and isinstance(y, dict):
+        return list(x) == list(y) and all(approx_same(x[k], y[k], rel) for k in x)
+    if isinstance(x, (list, tuple)) and isinstance(y, (list, tuple)):
+        return len(x) == len(y) and all(approx_same(a, b, rel) for a, b in zip(x, y))
+    num = lambda v: isinstance(v, (int, float)) and not isinstance(v, bool)  # noqa: E731
+    if num(x) and num(y):
+        return close(x, y, rel)
+    return canon(x) == canon(y)
+
+
 # --------------------------------------------------------------------------------------------
 # control-flow exceptions of a run
 # --------------------------------------------------------------------------------------------
